@@ -1082,3 +1082,75 @@ func checkWaitingFlagWriters(c *Ctx) {
 		c.anchorMissing("writes of TraditionalDnsConn.waitingResp")
 	}
 }
+
+// checkExchangeFunctionsCovered (C01-R8): the rules about which reply an exchange returns are written against named
+// functions (the four that take a reply off a channel or a body, and the wrappers that pass an inner exchange's result
+// on). This obligation closes the list: every function of the upstream packages and the forward plugin that has the
+// shape of an exchange — takes a context, returns (*[]byte, error) — is in the table below with the rule that covers
+// it; a new exchange-shaped function is reported until someone decides which rule covers it.
+var exchangeFuncs = map[string]string{
+	"(*pkg/upstream/transport.TraditionalDnsConn).exchange":                          "C01-R5/R8, C02-R14: reply from its own channel, id restored",
+	"(*pkg/upstream/transport.reusableConn).exchange":                                "C01-R8/R12, C02-R14",
+	"(*pkg/upstream/transport.quicReservedExchanger).ExchangeReserved":               "C01-R5/R8, C02-R14",
+	"(*pkg/upstream/doh.Upstream).ExchangeContext":                                   "C01-R5/R8, C02-R14",
+	"(*pkg/upstream/doh.Upstream).exchange":                                          "C01-R11: body read whole, fresh URL",
+	"(*pkg/upstream/transport.PipelineTransport).ExchangeContext":                    "C08-R1..R3: returns the attempt's reply",
+	"(*pkg/upstream/transport.ReuseConnTransport).ExchangeContext":                   "C08-R1..R3: returns the attempt's reply",
+	"(*pkg/upstream/transport.tdcOneTimeExchanger).ExchangeReserved":                 "C09-R3: pass-through to TraditionalDnsConn.exchange",
+	"(*pkg/upstream/transport.lazyDnsConnEarlyReservedExchanger).ExchangeReserved":   "C09-R3: pass-through to the dialled connection's exchanger",
+	"(*pkg/upstream.udpWithFallback).ExchangeContext":                                "C17-R1: the UDP reply or the TCP exchange's results",
+	"(*pkg/upstream.dohWithClose).ExchangeContext":                                   "pass-through (embedding wrapper)",
+	"(*plugin/executable/forward.upstreamWrapper).ExchangeContext":                   "C14-R10: returns the upstream's results unchanged",
+}
+
+func checkExchangeFunctionsCovered(c *Ctx) {
+	n := 0
+	for _, f := range c.P.funcsIn(relTransport, relDoh, relUpstream, relForward) {
+		if f.Parent() != nil || f.Synthetic != "" {
+			continue
+		}
+		sig := f.Signature
+		res := sig.Results()
+		if res.Len() != 2 || res.At(0).Type().String() != "*[]byte" || res.At(1).Type().String() != "error" {
+			continue
+		}
+		hasCtx := false
+		for i := 0; i < sig.Params().Len(); i++ {
+			if sig.Params().At(i).Type().String() == "context.Context" {
+				hasCtx = true
+			}
+		}
+		if !hasCtx {
+			continue
+		}
+		n++
+		name := funcName(f)
+		why, ok := exchangeFuncs[name]
+		if !ok && isNewHelper(f) {
+			// a NEW helper called only from covered functions is part of them (the write-error tail of exchange, one
+			// attempt of the retry loop)
+			sites, asValue := callSitesOf(f)
+			all := !asValue && len(sites) > 0
+			for _, st := range sites {
+				r := st.Parent()
+				for r.Parent() != nil {
+					r = r.Parent()
+				}
+				if _, cov := exchangeFuncs[funcName(r)]; !cov {
+					all = false
+				}
+			}
+			if all {
+				ok, why = true, "a new helper of covered functions only"
+			}
+		}
+		if ok {
+			c.ok("exchange-function-covered@"+name, f.Pos(), "covered by %s", why)
+		} else {
+			c.fail("exchange-function-covered@"+name, f.Pos(), "%s has the shape of an exchange (context in, (*[]byte, error) out) but none of the reply rules names it: a new path that hands a reply to a caller escapes them (add it to exchangeFuncs with the rule that covers it)", name)
+		}
+	}
+	if n == 0 {
+		c.anchorMissing("exchange-shaped functions")
+	}
+}
